@@ -9,7 +9,7 @@ for f in ['patch.diff', 'seeded_demo.rs', 'NOTES.md', 'Cargo.toml']:
     if os.path.exists(f'/tmp/seeded-out/{i}/{f}'):
         shutil.copy(f'/tmp/seeded-out/{i}/{f}', d)
 meta = {
-    "property": i,
+    "property": i[:3], "seed_id": i, "round": (2 if "r2" in i else 3 if "r3" in i else 1),
     "origin": "fresh sub-agent given only the property text and a scratch worktree of /repo (nothing from /verif)",
     "needs_to_manifest": needs,
     "verified_here": {
@@ -18,7 +18,7 @@ meta = {
         "demonstration_without_change": "exit 0",
         "command": f"bin/verify_seed {i} ... (tests with the change; the demonstration with and without the patch)",
     },
-    "check_result": {"command": f"bin/try_seed {i}  (git -C /repo apply patch.diff; bin/check {i} quick; git -C /repo checkout -- .)", "verdict": verdict, "clause": clause},
+    "check_result": {"command": f"bin/try_seed {i}  (git -C /repo apply patch.diff; bin/check {i[:3]} quick; git -C /repo checkout -- .)", "verdict": verdict, "clause": clause},
 }
 if note:
     meta["note"] = note
